@@ -34,6 +34,8 @@ CompareResult arithmeticCompare(
     const T1& lhs, const T2& rhs,
     enable_if_t<is_integral<T1>::value && is_integral<T2>::value &&
                 sizeof(T1) < sizeof(T2)>* = 0) {
+  if (is_signed<T1>::value && is_unsigned<T2>::value && lhs < T1(0))
+    return COMPARE_RESULT_LESS;  // a negative number is below any unsigned one
   return arithmeticCompare<T2>(static_cast<T2>(lhs), rhs);
 }
 
@@ -42,6 +44,8 @@ CompareResult arithmeticCompare(
     const T1& lhs, const T2& rhs,
     enable_if_t<is_integral<T1>::value && is_integral<T2>::value &&
                 sizeof(T2) < sizeof(T1)>* = 0) {
+  if (is_unsigned<T1>::value && is_signed<T2>::value && rhs < T2(0))
+    return COMPARE_RESULT_GREATER;  // any unsigned number is above a negative one
   return arithmeticCompare<T1>(lhs, static_cast<T1>(rhs));
 }
 
